@@ -250,3 +250,38 @@ def matrix_twice(self, mode2, %s):
         c.define('D', "ghost('Dev')[1]")
         c.ensures('two-whole-matrix-requests', "len(ghost('Dev')) == 2 and D[1] == 'set_matrix' and same(D[0], _impl) and len(D[2]) == 1")
         color_clauses(c, mode2, D='D[2][0]', R='n_%s')
+
+
+# ---- `set X begin stage row 9 10 end` on an unknown or non-matrix light, whatever was staged for an earlier light: a message,
+#      no exception (the stages that follow must not fall outside a matrix left over from another light) and nothing sent
+for target in ('unknown', 'plain'):
+    for prev in (None, (2, 3)):
+        c = contract('bardolph/vm/machine.py', 'stage_on_absent_light', serves=['C15', 'C12', 'C01'],
+                     name='lemma:set X begin stage row 9 10 end [%s target, staged before: %s]' % (target, prev and '%dx%d' % prev), src='''
+def stage_on_absent_light(self):
+    reg = self._reg
+    before = reg.matrix
+    self._matrix()
+    fresh = reg.matrix is not before or before is None
+    reg.first_row, reg.last_row, reg.first_column, reg.last_column = 9, 10, None, None
+    self._color_matrix()
+    self._color_matrix_light()
+    return fresh
+''')
+        def _setup(b, case, target=target, prev=prev):
+            impl = lib.device(b, 'dev')
+            lights = {'P': lib.lifx_light(b, 'plain', impl, 'P')} if target == 'plain' else {}
+            m = lib.machine(b, 'RAW', lib.light_set_with(b, lights))
+            reg = m.attrs['_reg']
+            reg.attrs['name'] = 'P' if target == 'plain' else 'nobody'
+            reg.attrs['duration'] = 0
+            reg.attrs['default'] = PyList([0, 0, 0, 0])
+            for n in ('hue', 'saturation', 'brightness', 'kelvin'):
+                reg.attrs[n] = 1
+            if prev is not None:
+                cmc = b.cls('bardolph.controller.color_matrix', 'ColorMatrix')
+                reg.attrs['matrix'] = b.I.call(cmc.attrs['new_from_constant'], [prev[0], prev[1], PyList([1, 2, 3, 4])], {})
+            return {'self': m}
+        c.setup(_setup)
+        c.ensures('not-the-matrix-of-an-earlier-light', 'result is True')
+        c.ensures('nothing-sent', "len(ghost('Dev')) == 0")
